@@ -205,6 +205,11 @@ def lambda_scope_programs():
     out.append('fn main() { let f = fn(x: int) -> null { x = 5; }; let a = 1; f(a); println(a); let l = [1]; let g = fn(m: [int]) { m.push(2); m = [9]; }; g(l); println(l); '
                'let o = new { k: 1 }; let h = fn(p: { k: int }, s: str) { p.k = 7; s = "z"; }; let t = "s"; h(o, t); println(o, t); '
                'let c = 0; let bump = fn(n: int) -> int { n += 1; n }; println(bump(c), c, bump(c), c); let fl = 1.5; let neg = fn(v: float, b: bool) { v = 0.0 - v; b = !b; }; let tb = true; neg(fl, tb); println(fl, tb); }')
+    # a function-typed variable (parameter, block-local, loop variable) shadows a module function of the same name, also in a
+    # DIRECT call; any-object equality when one side's fields are a strict subset of the other's
+    out.append('fn scale(n: int) -> int { n * 2 }\nfn greet(s: str) { println("hello", s); }\nfn apply(scale: fn(n: int) -> int, v: int) -> int { scale(v) + 100 }\n'
+               'fn main() { println(scale(4)); println(apply(fn(n: int) -> int { n + 0 }, 4)); greet("a"); { let greet = fn(s: str) { println("bye", s); }; greet("b"); greet("c"); } greet("d"); println(scale(1)); '
+               'let e = new { ? }; let o = new { ? }; o.set("k", 1); let p = new { ? }; p.set("k", 1); p.set("j", 2); println(e == o, o == e, o == p, p == o, e != p, [e].contains(p), [p].contains(o), o == o); }')
     out.append('fn named(x: int, m: [int]) { x = 5; m = [0]; }\nfn main() { let a = 1; let l = [1]; named(a, l); println(a, l); let w = fn(q: int) { named(q, [q]); q = 9; }; w(a); println(a); for i in 0..2 { let k = fn(j: int) { j += 10; }; k(i); println(i); } }')
     return out
 
